@@ -38,7 +38,16 @@ class PolicerRun:
             it = itertools.cycle(ov)
             sim.sleep_overshoot = lambda ns: next(it)
         try:
-            p = g.policer.RPSPolicer(plan["rps"])
+            via = plan.get("via", "direct")
+            if via == "direct":
+                p = g.policer.RPSPolicer(plan["rps"])
+            else:
+                # the same rate handed to a session: limit_rps= builds the limiter
+                cls = g.aclient.SnmpSession if via == "async-session" else g.sclient.SnmpSession
+                sess = cls("127.0.0.1", port=10161, limit_rps=plan["rps"])
+                p = sess._policer
+                if p is None:
+                    raise RuntimeError("session built without a limiter")
             self.ctor = "ok"
         except ValueError:
             self.ctor = "ValueError"
@@ -103,7 +112,7 @@ class C19(Prop):
         "with gaps 0, < delta, = delta, k*delta +-1 ns, >> delta, starting at arbitrary clock origins; a family through rate-limited sync/async "
         "sessions where the release time is the instant the request hits the wire; a bounded-exhaustive family for delta <= 3 ns enumerating every "
         "gap sequence of length 4 (thorough: 5) over 0..2*delta+1; an overshoot family (sleep returns late) judged only by the weaker bound; constructor "
-        "refusals. oracle: requested delay <= delta, any k+1 consecutive releases span > (k-1)*delta, release >= ask. non-trivial = at least one "
+        "refusals. oracle: requested delay <= delta, any k+1 consecutive releases span > (k-1)*delta, release >= ask. invalid rates also through the sync and async session constructors (limit_rps=). non-trivial = at least one "
         "call was delayed and one passed immediately; distinct = (delta, gap sequence) hash"
     )
     quick_runs = 30000
@@ -117,7 +126,11 @@ class C19(Prop):
 
     def gen(self, rng, family, tier):
         if family == "ctor":
-            return {"kind": "ctor", "rps": rng.choice([0, 0.0, -1, -0.5, -1e-300, 1e9, 1e9 + 1, 1.0000001e9, 2e9, 1e18, float("inf"), 1e-9, 0.1, 1, 3, 1e9 - 1, 999_999_999.5]), "gaps": [0, 0]}
+            plan = {"kind": "ctor", "rps": rng.choice([0, 0.0, -1, -0.5, -1e-300, 1e9, 1e9 + 1, 1.0000001e9, 2e9, 1e18, float("inf"), 1e-9, 0.1, 1, 3, 1e9 - 1, 999_999_999.5, -5, -1000.0, float("nan"), -float("inf")]), "gaps": [0, 0]}
+            plan["via"] = rng.choice(["direct", "direct", "sync-session", "async-session"])
+            if plan["via"] != "direct" and plan["rps"] == 0:
+                plan["via"] = "direct"  # limit_rps=0 reads as "no limit" for a session: nothing is claimed
+            return plan
         if family == "session":
             ver = rng.choice(["v1", "v2c", "v2c"])
             sess = community_session(rng, ver)
@@ -220,7 +233,7 @@ class C19(Prop):
             else:
                 run.sim.count("probe.ctor-refused")
                 if run.ctor != "ValueError":
-                    out.append(V("C19.invalid-rate-accepted", "RPSPolicer(%r): %s" % (rps, run.ctor)))
+                    out.append(V("C19.invalid-rate-accepted", "%s(%r): %s" % ("RPSPolicer" if plan.get("via", "direct") == "direct" else plan["via"] + " limit_rps=", rps, run.ctor), via=plan.get("via", "direct")))
             return out
         if plan["kind"] == "session":
             delta = int(NS / float(plan["rps"]))
